@@ -87,6 +87,8 @@ def ann_expr(spec):
             else:
                 fs.append(f"{name}=({ann_expr(fspec)}, {default})")
         o = f", _options={opts}" if opts else ""
+        if base.endswith("3"):
+            return f"SC3('S', {base[:-1]}{o}, {', '.join(fs)})"
         return f"SC('S', {base}{o}, {', '.join(fs)})"
     raise ValueError(spec)
 
